@@ -1255,18 +1255,13 @@ pub(crate) fn from_volume_unit(
     } else {
         let mut opts: Vec<String> = Vec::with_capacity(2);
 
-        if volume.has_key(VOLUME_SECTION, "User") {
-            let uid = volume
-                .lookup_last(VOLUME_SECTION, "User")
-                .map(|s| s.parse::<u32>().unwrap_or(0)) // key found: parse or default
-                .unwrap_or(0); // key not found: use default
+        // an empty last assignment unsets the key, like everywhere else
+        if let Some(user) = volume.lookup_last(VOLUME_SECTION, "User") {
+            let uid = user.parse::<u32>().unwrap_or(0); // key found: parse or default
             opts.push(format!("uid={uid}"));
         }
-        if volume.has_key(VOLUME_SECTION, "Group") {
-            let gid = volume
-                .lookup_last(VOLUME_SECTION, "Group")
-                .map(|s| s.parse::<u32>().unwrap_or(0)) // key found: parse or default
-                .unwrap_or(0); // key not found: use default
+        if let Some(group) = volume.lookup_last(VOLUME_SECTION, "Group") {
+            let gid = group.parse::<u32>().unwrap_or(0); // key found: parse or default
             opts.push(format!("gid={gid}"));
         }
 
